@@ -1,6 +1,6 @@
 //! `Map<u8, N, u8>` for nested values N = Orswot, MVReg, or another Map (any depth).
 use crate::model::dotstore::{self, Shape};
-use crate::plan::idx;
+use crate::plan::{idx, universe};
 use crate::sim::*;
 use crate::subject::mvreg::{pick_val, sem_of_put};
 use crate::subject::orswot::{sem_of as set_sem_of, set_edit_kind, subset};
@@ -46,7 +46,7 @@ impl Nested for Orswot<u8, u8> {
     }
     fn nested_edit(v: &Self, ctx: AddCtx<u8>, e: EditArgs, aux: &mut Aux) -> (<Self as CmRDT>::Op, String) {
         let nmembers = if aux.big { 9 } else { NMEMBERS };
-        let m = if aux.big && e.e % 2 == 1 { idx(e.a, nmembers) as u8 } else { idx(e.a, 2) as u8 };
+        let m = if aux.big { let u = universe(nmembers); if e.e % 2 == 1 { u[idx(e.a, nmembers)] } else { u[idx(e.a, 2)] } } else { idx(e.a, 2) as u8 };
         let mut kind = set_edit_kind(e.kind, true);
         if e.d % 4 != 0 {
             if kind == 2 && !v.contains(&m).val {
@@ -198,10 +198,11 @@ pub struct SMapK<N, const K: usize>(PhantomData<N>);
 pub type SMap<N> = SMapK<N, 3>;
 
 pub fn pick_key(a: u16, e: u16, n: usize) -> u8 {
+    let u = universe(n);
     if n <= 3 || e % 3 == 0 {
-        idx(a, n.min(3)) as u8
+        u[idx(a, n.min(3))]
     } else {
-        idx(a, n) as u8
+        u[idx(a, n)]
     }
 }
 
@@ -300,7 +301,7 @@ where
         if it.len() != keys.len() || vals.len() != keys.len() {
             api.push("iter()/values() length differs from keys()".into());
         }
-        let mut all: Vec<u8> = (0..K as u8).collect();
+        let mut all: Vec<u8> = universe(K);
         for k in &key_list {
             if !all.contains(k) {
                 all.push(*k);
@@ -337,7 +338,7 @@ where
     }
     fn predict(metas: &[OpMeta], know: Bits) -> Option<Obs> {
         let ds = dotstore::Store::build(metas, know);
-        Some(dotstore::predict_map(&ds, &N::shape(), K))
+        Some(dotstore::predict_map(&ds, &N::shape(), &universe(K)))
     }
     fn validate_op(s: &Self::St, op: &Self::Op) -> Result<(), String> {
         s.validate_op(op).map_err(|e| render_map_op_err::<N>(&e))
@@ -363,7 +364,7 @@ where
         probe!("read_ctx".to_string(), None, s.read_ctx());
         probe!("len".to_string(), None, s.len());
         probe!("is_empty".to_string(), None, s.is_empty());
-        for k in 0..K as u8 {
+        for k in universe(K) {
             probe!(format!("get({k})"), Some(format!("key:{k}")), s.get(&k));
         }
         for e in s.keys() {
